@@ -49,6 +49,9 @@ TABLE = {
  "C14": (True, "differential runtime monitoring across build configurations (transcript equality with the default build)",
          "the same worker source is compiled once per HBS_LMS_* configuration (levels, per-level maximum heights, per-level minimum Winternitz parameters, combinations; 13 in quick, 22 in thorough); for parameter lists inside the limits the transcript of keygen / lifetime / sign / successor / verify / aux / last-leaf wipe must equal the default build's byte for byte, lists just outside the limits must be refused with Err by keygen, get_lifetime and sign without any callback; a configuration that does not build or a worker that dies is a violation",
          TRUST + "; 'within limits' as documented in the crate (length <= levels, h_i <= max height of level i, w_i >= min W of level i)", "DESIGN.md 5 (C14)"),
+ "C15": (True, "runtime monitoring of sign_mut across thread-count builds + ThreadSanitizer + Miri",
+         "the same driver is built per HBS_LMS_THREADS x HBS_LMS_MAX_HASH_OPTIMIZATIONS setting (4 builds quick, 12 thorough) and checks every sign_mut call: signature verifies (library + independent verifier) for the returned message, only the trailer changed, callback protocol, hash_iterations, refusal of short messages and of every non-zero trailer byte position without consuming a leaf, no panic, no unbounded work (stuck calls are decided on consumed CPU time); worker start/end events from a hook show which overlap patterns of the worker threads were actually observed (too few = inconclusive); the same workload runs under ThreadSanitizer and (tiny) under Miri with several seeds",
+         TRUST + "; absence of a sanitizer report is not absence of a race: schedules are sampled", "DESIGN.md 5 (C15)"),
  "C16": (True, "runtime memory inspection of real secret-bearing values after zeroize, drop and exhaustion",
          "values of all five secret-bearing types are populated by the real derivation code for every hash and W, their secrets snapshotted; after zeroize() and after drop_in_place in a MaybeUninit slot the raw memory of the value (volatile byte reads) must not contain any 8-byte window of a secret and the secret fields must read zero; keys are exhausted through all signing entry points and the final key bytes scanned for the seed; a vacuity guard requires the scan to find the secrets in the live value; a missing Zeroize impl is detected at run time",
          TRUST + "; move residue on the stack is out of scope by design", "DESIGN.md 5 (C16)"),
